@@ -26,6 +26,7 @@ def run(chk, ctx):
     P = Prog(ctx["facts"])
     from . import eqrules
     eqrules.require(chk, P, ["stmt::DataEntry"], "`new != old` on row entries means a different entry (kind or value)")
+    eqrules.require_clone(chk, P, ["stmt::DataEntries"], "expansion copies carry the row's entries unchanged")
     L = panrules.Lemmas(P, chk)
     chk.explanation = ("C06 decided as tables and origin rules on all paths: ORG (the column of a signal is header.position(|h| h == signal.name), resp. name + \"_out\"), TAB (which list gets which column per SignalType variant, Entry vs Default per Some/None, "
                        "signal_index = position in the signal list, one pass in signal-list order), TAB on the row generators per (index variant x entry variant): value from stmt_entries[entry_index], signal = signals[signal_index], changed = changed[entry_index] with the same index, defaults unflagged, "
